@@ -6,15 +6,17 @@ CFG = dict(
           "nobody is registered under is logged and routed to nobody), C05_route_take / C05_route_queue (whatever a call takes, has "
           "queued or held for it was read from the transport, routed to it and carries its id) and C05_noninterference_partial (a reply "
           "/ stream message reported to a call is the body of such an envelope) in coq/Props/C05.v, over all label sequences of "
-          "coq/Model/Client.v (any inbound envelopes, any interleaving). C05_route_exact: per call the routed envelopes are, in order and once each, the taken ones, then the queued one, then the held one, then the at most one dropped one (dropped = held while the call unregistered). C05_noninterference: EVERY API return of a call (unary result, RecvMsg messages and errors, Header, Trailer, SendMsg / CloseSend / NewStream errors) is justified by the envelopes the call itself took (its id, routed to it), by its OWN context, or by the connection-wide read failure. Server half: builder sv.",
+          "coq/Model/Client.v (any inbound envelopes, any interleaving). C05_route_exact: per call the routed envelopes are, in order and once each, the taken ones, then the queued one, then the held one, then the at most one dropped one (dropped = held while the call unregistered). C05_noninterference: EVERY API return of a call (unary result, RecvMsg messages and errors, Header, Trailer, SendMsg / CloseSend / NewStream errors) is justified by the envelopes the call itself took (its id, routed to it), by its OWN context, or by the connection-wide read failure. Server half (coq/Model/Server.v, Proofs/ServerRoute.v, over all label sequences): C05_server_route (per stream handler the envelopes read while it was the registered entry of its id - the sub-sequence of the inbox that is its own - are, in order and once each, those settled for it (queued or dropped because its context was done), then the one the read loop holds for it, then at most one abandoned at the end of the connection; the queued ones are, in order and once each, those it took, then the one still queued), C05_server_route_serving, C05_server_route_nobody, C05_server_unary_once (the unary requests read are, in order and once each, those handed to a worker - one job event each -, then the one on offer, then at most one abandoned).",
     props="Props/C05.v",
     theorems=["C05_unique", "C05_counter", "C05_wire", "C05_route_found", "C05_route_owner", "C05_route_take", "C05_route_queue",
-              "C05_route_exact", "C05_route_nobody", "C05_noninterference", "C05_noninterference_partial"],
+              "C05_route_exact", "C05_route_nobody", "C05_noninterference", "C05_noninterference_partial",
+              "C05_server_route", "C05_server_route_serving", "C05_server_route_nobody", "C05_server_unary_once"],
     imports=["Model.Client", "Check.ClientC", "Check.ClientSpec", "Check.C05c"],
     case_type="c05case",
     find_bad_from="Check.C05c.find_bad_from",
     go_tags="cl",
     rigs=[dict(test="TestC05Perm", timeout_quick=300, timeout_thorough=1500),
+          dict(test="TestC05Surplus", timeout_quick=200, timeout_thorough=300),
           dict(test="TestC05Fault", timeout_quick=200, timeout_thorough=300),
           dict(test="TestC05Free", timeout_quick=300, timeout_thorough=900)],
     reason_text={"1": "the real client's observation differs from every outcome of the Gallina model (Model/Client.v, all orders of internal rules)",
@@ -30,7 +32,7 @@ CFG = dict(
          "real client + real server: 64 goroutines start 10^4 (thorough 10^5) calls (10% bidi streams) on one connection with seeded "
          "yields at the verif hook points; ids of all first envelopes taken from the wire, (request, reply) recorded by every caller; one unary call in seven has an "
          "already-ended context (its transport write fails cleanly while the others are in flight), one stream in three is aborted by "
-         "its handler while the client still sends; (c) TestC05Fault, in a bubble with a transport that holds writes: 1..2 unary calls "
+         "its handler while the client still sends; (c') TestC05Surplus: surplus replies to one unary call in one burst, then later calls on the same connection each answered by its own reply (distinct tokens); (c) TestC05Fault, in a bubble with a transport that holds writes: 1..2 unary calls "
          "whose Write fails cleanly (context ends while the write waits / write error) while 1..3 later calls are in flight, then 1..2 new "
          "calls; the peer answers every request it received with token + 1 under the request's id; these cases are ALSO compared with the "
          "model (reason 1): a Write held by the transport is the model state 'id allocated, not yet registered + written'; "
